@@ -27,9 +27,10 @@ type c10Peer struct {
 	// openconfirm-out, established-out, opensent-in, openconfirm-in,
 	// established-in, collision (out in OpenSent + in in OpenConfirm),
 	// collision2 (both in OpenSent), held-down, writers-in, writers-out
-	Park    string `json:"park"`
-	Passive bool   `json:"passive,omitempty"`
-	SpinCb  string `json:"spin_cb,omitempty"` // a plugin callback that busy-waits a little
+	Park     string `json:"park"`
+	Passive  bool   `json:"passive,omitempty"`
+	SpinCb   string `json:"spin_cb,omitempty"` // a plugin callback that busy-waits a little
+	SpinLong bool   `json:"spin_long,omitempty"`
 }
 
 type c10Conc struct {
@@ -53,7 +54,11 @@ func c10Spec(i int, p c10Peer) world.PeerSpec {
 		sp.Passive = p.Passive
 	}
 	if p.SpinCb != "" {
-		sp.Plugin.SpinUs = map[string]int64{p.SpinCb: 30}
+		us := int64(30)
+		if p.SpinLong {
+			us = 400
+		}
+		sp.Plugin.SpinUs = map[string]int64{p.SpinCb: us}
 	}
 	return sp
 }
@@ -94,9 +99,9 @@ func corebgpGoroutines() (int, string) {
 	return cnt, strings.Join(sample, "\n\n")
 }
 
-func c10Prop(t *testing.T, r *hx.Run) func(c c10Case) hx.Verdict {
+func c10Prop(t *testing.T, r *hx.Run, sub string) func(c c10Case) hx.Verdict {
 	return func(c c10Case) hx.Verdict {
-		r.SetCurrent("stop_at_every_point", c)
+		r.SetCurrent(sub, c)
 		parks := ""
 		busy := false
 		for _, p := range c.Peers {
@@ -263,6 +268,8 @@ func c10Prop(t *testing.T, r *hx.Run) func(c c10Case) hx.Verdict {
 			}
 			touched := map[int]bool{}
 			progressed := map[int]bool{}
+			racingAPI := false
+			burstStart := w.Net.NextSeq()
 			fireConc := func() {
 				for _, x := range c.Conc {
 					if x.Peer >= len(specs) {
@@ -286,6 +293,22 @@ func c10Prop(t *testing.T, r *hx.Run) func(c c10Case) hx.Verdict {
 							defer wg.Done()
 							w.WriteUpdate(sp.Remote, 0, 77, tagBody(x.Peer, 0, 77, 0, 30))
 						}()
+						continue
+					case "del", "add":
+						if c.API == "del-add" {
+							continue // the re-add probe would be ambiguous
+						}
+						// another API call racing the stop under test
+						wg.Add(1)
+						go func(kind string) {
+							defer wg.Done()
+							if kind == "del" {
+								w.Srv.DeletePeer(sp.RemoteAddr())
+							} else {
+								w.AddPeer(sp)
+							}
+						}(x.Kind)
+						racingAPI = true
 						continue
 					}
 					if cn == nil {
@@ -359,9 +382,12 @@ func c10Prop(t *testing.T, r *hx.Run) func(c c10Case) hx.Verdict {
 				fail("stop-blocked", "%s did not return within 5 virtual seconds (parks %s, concurrent %s)", c.API, parks, concs)
 				return
 			}
-			if apiErr != nil {
+			if apiErr != nil && !racingAPI {
 				fail("stop-error", "DeletePeer returned %v", apiErr)
 				return
+			}
+			if apiErr != nil {
+				return // a racing DeletePeer got there first: nothing to claim about this call
 			}
 			_ = took
 			// callbacks for affected peers that started after the return
@@ -383,6 +409,12 @@ func c10Prop(t *testing.T, r *hx.Run) func(c c10Case) hx.Verdict {
 					return
 				}
 			}
+			racingAdd := map[string]bool{}
+			for _, x := range c.Conc {
+				if x.Kind == "add" && x.Peer < len(specs) && c.API != "del-add" {
+					racingAdd[specs[x.Peer].Remote] = true
+				}
+			}
 			// every connection of the affected peers is closed; the parked ones got a Cease first
 			for _, cn := range w.Net.Conns() {
 				st := cn.Snapshot()
@@ -390,8 +422,18 @@ func c10Prop(t *testing.T, r *hx.Run) func(c c10Case) hx.Verdict {
 				if !affected[peer] {
 					continue
 				}
+				if racingAdd[peer] && st.CreatedS > burstStart && c.API != "close" && c.API != "liserr" {
+					continue // belongs to the registration a racing AddPeer created
+				}
 				if !st.LocalClosed {
 					fail("connection-left-open", "after %s returned, connection %d (%s, handed over: %v) of peer %s is still open", c.API, st.ID, map[bool]string{true: "inbound", false: "outbound"}[st.Inbound], st.HandedOver, peer)
+					return
+				}
+				// "by the time they return": a connection that existed before the
+				// burst must have been closed before the call returned (sequence
+				// numbers, not the settled state afterwards)
+				if st.CreatedS < burstStart && st.HandedOver && st.CloseSeq > retSeq && c.API != "del-add" {
+					fail("connection-closed-after-return", "connection %d of peer %s was closed (#%d) only after %s had returned (#%d)", st.ID, peer, st.CloseSeq, c.API, retSeq)
 					return
 				}
 				if stage[st.ID] == "session" && !touched[st.ID] {
@@ -429,7 +471,7 @@ func c10Prop(t *testing.T, r *hx.Run) func(c c10Case) hx.Verdict {
 						hist[e.Peer].closed++
 					}
 				}
-				if e.Seq > retSeq && affected[e.Peer] && isCallbackStart(e.K) && c.API != "del-add" {
+				if e.Seq > retSeq && affected[e.Peer] && isCallbackStart(e.K) && c.API != "del-add" && !racingAdd[e.Peer] {
 					fail("callback-after-stop", "peer %s: callback %s (#%d) started after %s returned (#%d)", e.Peer, e.K, e.Seq, c.API, retSeq)
 					return
 				}
@@ -441,7 +483,7 @@ func c10Prop(t *testing.T, r *hx.Run) func(c c10Case) hx.Verdict {
 				}
 			}
 			// no goroutine of corebgp left for the affected peers
-			if len(affected) == len(specs) && c.API != "del-add" {
+			if len(affected) == len(specs) && c.API != "del-add" && !(len(racingAdd) > 0 && c.API == "del") {
 				if n, sample := corebgpGoroutines(); n != 0 {
 					// a goroutine may need an instant to unwind after closing its done channel
 					w.Advance(time.Millisecond)
@@ -494,13 +536,13 @@ func c10Prop(t *testing.T, r *hx.Run) func(c c10Case) hx.Verdict {
 			if c.API != "del-add" {
 				w.Advance(10 * time.Minute)
 				for _, e := range w.Rec.Events()[nEv:] {
-					if affected[e.Peer] && isCallbackStart(e.K) {
+					if affected[e.Peer] && isCallbackStart(e.K) && !(racingAdd[e.Peer] && c.API != "close" && c.API != "liserr") {
 						fail("callback-after-stop", "peer %s: callback %s at %v, long after %s returned", e.Peer, e.K, e.T, c.API)
 						return
 					}
 				}
 				for _, d := range w.Net.Dials()[nDial:] {
-					if affected[d.Remote.String()] {
+					if affected[d.Remote.String()] && !(racingAdd[d.Remote.String()] && c.API != "close" && c.API != "liserr") {
 						fail("dial-after-stop", "peer %s: dial attempt at %v, after %s returned", d.Remote, d.At, c.API)
 						return
 					}
@@ -508,7 +550,7 @@ func c10Prop(t *testing.T, r *hx.Run) func(c c10Case) hx.Verdict {
 			} else {
 				// re-add: the peer must operate again
 				sp := specs[0]
-				if err := w.AddPeer(sp); err != nil {
+				if err := w.AddPeer(sp); err != nil && !(racingAdd[sp.Remote] && errors.Is(err, corebgp.ErrPeerAlreadyExists)) {
 					fail("re-add", "AddPeer after DeletePeer: %v", err)
 					return
 				}
@@ -560,11 +602,12 @@ func genC10(rt *rapid.T) c10Case {
 		p := c10Peer{Park: c10Parks[rapid.IntRange(0, len(c10Parks)-1).Draw(rt, "park")], Passive: rapid.Bool().Draw(rt, "passive")}
 		if rapid.IntRange(0, 5).Draw(rt, "spin") == 0 {
 			p.SpinCb = pick(rt, "spincb", "caps", "open", "est", "upd", "close")
+			p.SpinLong = rapid.Bool().Draw(rt, "spinlong")
 		}
 		c.Peers = append(c.Peers, p)
 	}
 	for i, k := 0, rapid.IntRange(0, 3).Draw(rt, "nconc"); i < k; i++ {
-		c.Conc = append(c.Conc, c10Conc{Kind: pick(rt, "ckind", "open", "keepalive", "update", "notif", "rclose", "rreset", "release", "release", "connect", "write"),
+		c.Conc = append(c.Conc, c10Conc{Kind: pick(rt, "ckind", "open", "keepalive", "update", "notif", "rclose", "rreset", "release", "release", "connect", "write", "del", "del", "add"),
 			Peer: rapid.IntRange(0, n-1).Draw(rt, "cpeer"), Dir: pick(rt, "cdir", "in", "out")})
 	}
 	if rapid.IntRange(0, 2).Draw(rt, "delays") == 0 {
@@ -591,11 +634,24 @@ func TestC10(t *testing.T) {
 						}
 					}
 				}
+				// another DeletePeer racing the stop while a callback dawdles
+				for _, spin := range []string{"open", "est", "caps", "upd"} {
+					for _, conc := range [][]c10Conc{
+						{{Kind: "del", Peer: 0}},
+						{{Kind: "open", Peer: 0, Dir: "in"}, {Kind: "open", Peer: 0, Dir: "out"}, {Kind: "del", Peer: 0}},
+						{{Kind: "keepalive", Peer: 0, Dir: "in"}, {Kind: "keepalive", Peer: 0, Dir: "out"}, {Kind: "del", Peer: 0}},
+						{{Kind: "update", Peer: 0, Dir: "in"}, {Kind: "update", Peer: 0, Dir: "out"}, {Kind: "del", Peer: 0}},
+					} {
+						if !yield(c10Case{Peers: []c10Peer{{Park: park, SpinCb: spin, SpinLong: true}}, API: api, Conc: conc}) {
+							return
+						}
+					}
+				}
 			}
 		}
-	}, c10Prop(t, r))
+	}, c10Prop(t, r, "every_point_x_api"))
 
-	hx.Rapid(r, t, "stop_at_every_point", r.N(2500, 25000), genC10, c10Prop(t, r))
+	hx.Rapid(r, t, "stop_at_every_point", r.N(2500, 25000), genC10, c10Prop(t, r, "stop_at_every_point"))
 }
 
 var _ = netip.Addr{}
